@@ -181,6 +181,9 @@ def run(rep, work, tier, seed):
         "of real clocks is outside the model",
         "callers are asyncio tasks on one loop (the wrapper documents that it is not thread safe)",
     ]
+    # the decorator stacked with the others (Stack.tla): every layer acts on the layer below it
+    from props.stack_common import stack_legs
+    stack_legs(rep, work, tier, "throttle")
     return rep.finish(exhaustive=True,
                       rule="all interleavings of {arrive (index order), tick, function end (value|exception), cancel a "
                            "waiting caller} for every limit/period/period-form within NCalls and MaxT; every controlled "
@@ -189,6 +192,9 @@ def run(rep, work, tier, seed):
 
 def replay(rep, record):
     from harness.graph import parse_label
+    if record.get("spec") == "Stack":
+        from props.stack_common import replay_stack
+        return replay_stack(record)
     d = ThrottleDriver()
     d.reset(record["init"])
     print("  config:", {k: record["init"][k] for k in ("limit", "period", "pform")})
